@@ -42,7 +42,7 @@ const OPS: [Op; 24] = [Op::StepIn, Op::StepOver, Op::StepOut, Op::RunLimit(0), O
 enum Pause { Halt, McrOff, Breakpoint, Tripwire, Unsuccessful }
 
 struct Side { sim: Simulator, dev: Arc<Mutex<IntState>>, disp: BufferedDisplay }
-struct World { a: Side, twin: Side, pause: Pause, bps: [bool; 3], prog: usize, /** call depth of the twin, counted by the harness from the instructions it single-steps (not read from the simulator) */ depth: u64 }
+struct World { a: Side, twin: Side, pause: Pause, bps: [bool; 3], /** an extra breakpoint of the comparator family: (on memory cell M instead of R0, comparator kind 0..8, operand) */ extra: Option<(bool, u8, u16)>, prog: usize, /** call depth of the twin, counted by the harness from the instructions it single-steps (not read from the simulator) */ depth: u64 }
 const SSP_PORT: u16 = 0xFE30;
 
 fn side(p: &Prog) -> Side {
@@ -59,11 +59,30 @@ fn side(p: &Prog) -> Side {
     sim.device_handler.add_device(IntSource { vect: 0x90, prio: 1, state: st.clone() }, &[]).ok().unwrap();
     Side { sim, dev: st, disp }
 }
-fn fresh(prog: usize) -> World { let p = &progs()[prog]; World { a: side(p), twin: side(p), pause: Pause::Unsuccessful, bps: [false; 3], prog, depth: 0 } }
+fn fresh(prog: usize) -> World { let p = &progs()[prog]; World { a: side(p), twin: side(p), pause: Pause::Unsuccessful, bps: [false; 3], extra: None, prog, depth: 0 } }
 
 fn bp_match(w: &World, s: &Simulator) -> bool {
     let p = &progs()[w.prog];
     (w.bps[0] && s.pc == p.bp) || (w.bps[1] && s.reg_file[reg(0)].get() == 2) || (w.bps[2] && s.mem[p.m].get() != 0)
+        || w.extra.map(|(on_mem, kind, r)| { let v = if on_mem { s.mem[p.m].get() } else { s.reg_file[reg(0)].get() }; documented_comparison(kind, v, r) }).unwrap_or(false)
+}
+/// the comparators as documented: never, <, ==, <=, >, !=, >=, always
+fn documented_comparison(kind: u8, v: u16, r: u16) -> bool { match kind { 0 => false, 1 => v < r, 2 => v == r, 3 => v <= r, 4 => v > r, 5 => v != r, 6 => v >= r, _ => true } }
+fn comparator(kind: u8, r: u16) -> Comparator { match kind { 0 => Comparator::Never, 1 => Comparator::Lt(r), 2 => Comparator::Eq(r), 3 => Comparator::Le(r), 4 => Comparator::Gt(r), 5 => Comparator::Ne(r), 6 => Comparator::Ge(r), _ => Comparator::Always } }
+/// Comparator family: one register / memory breakpoint with each of the 8 comparators and operands around the values the program produces,
+/// then 8 run-style calls of one kind (each stops at the next boundary where the documented predicate holds, or at HALT).
+fn comparator_case(prog: usize, on_mem: bool, kind: u8, r: u16, style: u8) -> Visit {
+    let res = catch(|| {
+        let mut w = fresh(prog);
+        let p = &progs()[prog];
+        let b = if on_mem { Breakpoint::Mem { addr: p.m, value: comparator(kind, r) } } else { Breakpoint::Reg { reg: reg(0), value: comparator(kind, r) } };
+        w.a.sim.breakpoints.insert(b);
+        w.extra = Some((on_mem, kind, r));
+        let op = match style { 0 => Op::Run, 1 => Op::RunLimit(u64::MAX), 2 => Op::StepOver, _ => Op::RunLimit(5) };
+        for i in 0..8 { if let Err(e) = apply(&mut w, op) { return Some((e.0, format!("program {prog}, breakpoint on {} with comparator #{kind} (never, <, ==, <=, >, !=, >=, always) and operand {r}: call {i} of {op:?}: {}", if on_mem { "the memory cell M" } else { "R0" }, e.1))); } }
+        None
+    });
+    match res { Ok(v) => Visit { fingerprint: 0, violation: v, ops_applied: 8 }, Err(p) => Visit { fingerprint: 0, violation: Some((format!("panic:{}", panic_site(&p)), p)), ops_applied: 0 } }
 }
 fn errname(e: &SimErr) -> String { let s = format!("{e:?}"); s.split('(').next().unwrap_or("").to_string() }
 
@@ -180,6 +199,12 @@ pub fn run(ctx: &Ctx) -> Report {
         for (d, n) in per_depth.iter().enumerate() { rep.acc.outcomes.insert(mix(prog as u64 * 16 + d as u64, *n)); rep.acc.count(&format!("program{prog}_new_states_depth_{d}"), *n); }
         if capped { rep.exhaustive = false; }
     }
+    let r = sweep(ctx, 2 * 2 * 8 * 8 * 4, 4, |i, acc| {
+        let (prog, on_mem, kind, r, style) = ([0usize, 1][(i % 2) as usize], i / 2 % 2 == 1, (i / 4 % 8) as u8, [0u16, 1, 2, 3, 4, 6, 8, 0xFFFF][(i / 32 % 8) as usize], (i / 256) as u8);
+        acc.evals += 1; acc.count("comparator_breakpoint_cases", 1); acc.transitions += 8;
+        if let Some((sig, d)) = comparator_case(prog, on_mem, kind, r, style).violation { acc.violation(sig, format!("cmp:{prog}:{}:{kind}:{r}:{style}", on_mem as u8), d); }
+    });
+    rep.absorb(r);
     let r = sweep(ctx, DEEP.len() as u64, 1, |i, acc| {
         acc.evals += 1; acc.count("deep_recursion_histories", 1);
         let v = visit(4, DEEP[i as usize]);
@@ -195,6 +220,7 @@ pub fn run(ctx: &Ctx) -> Report {
     rep
 }
 pub fn replay(case: &str) -> Option<String> {
+    if let Some(r) = case.strip_prefix("cmp:") { let q: Vec<u64> = r.split(':').filter_map(|x| x.parse().ok()).collect(); return comparator_case(*q.first()? as usize, *q.get(1)? == 1, *q.get(2)? as u8, *q.get(3)? as u16, *q.get(4)? as u8).violation.map(|(s, d)| format!("[{s}] {d}")); }
     let (p, hs) = case.split_once(':')?;
     let h: Vec<u16> = hs.split(',').filter(|x| !x.is_empty()).filter_map(|x| x.parse().ok()).collect();
     visit(p.parse().ok()?, &h).violation.map(|(s, d)| format!("[{s}] {d}"))
